@@ -187,18 +187,20 @@ def cov_from_front(j, rule):
     return cov
 
 
-C11_RULE = ("cases (text, position, file name?, colours on/off): texts assembled from line fragments (ASCII, multi-byte, tabs, spaces, empty, long lines "
-            "up to 300 chars) with \\n / \\r\\n / no final newline, 0-9 lines; position = a char boundary in 0..=len biased to 0, len, line starts and "
+C11_RULE = ("run twice: against the runtime crate with its default features and (a quarter of the cases) against a build without the `colored` feature. "
+            "cases (text, position, file name?, colours on/off): texts assembled from line fragments (ASCII, multi-byte, tabs, spaces, empty, long lines "
+            "up to 300 chars, in ~1 % of the cases one line of ~66 000 characters, in ~10 % an unusual first character) with \\n / \\r\\n / no final newline, 0-9 lines; position = a char boundary in 0..=len biased to 0, len, line starts and "
             "line ends; plus an exhaustive small scope (all texts over {a, é, space, newline} of length <= 6 x all boundary positions). Oracle: "
             "independent arithmetic for line, column (in characters), printed line (modulo trailing whitespace, as the code trims) and caret column; "
             "Display output parsed with colours forced off, or on with ANSI sequences stripped; catch_unwind for 'never panics'. Non-trivial = position at "
             "a line start other than 0, at a line end, at len, after a multi-byte character, or empty text; distinct (text, position, file).")
 C12_RULE = ("round trip model -> print(model, layout) -> Grammar::from_str -> lift (public AST -> model, literal items decoded with the repo's own "
-            "char::try_from(&StringItem), flags cross-checked with Rule::flags()) == model; layouts vary whitespace and # comments between all tokens "
+            "char::try_from(&StringItem)) == model; layouts vary whitespace and # comments between all tokens "
             "(also inside @check(...)/@extern(...) and before ';'), quote style, every escape spelling for every character (raw, \\n-style, \\xXX, \\uXXXX, "
             "\\U00XXXXXX, \\u{X..} minimal and zero padded, upper/lower hex), redundant parentheses (then compared modulo groups), directive order, several "
-            "@checks before/after @char, lookaheads applied to groups, empty alternatives; second relation: two layouts of one model generate byte-identical "
-            "code. Non-trivial = layout has a comment inside an expression, a non-raw escape, or redundant parentheses; distinct by text.")
+            "@checks before/after @char, lookaheads applied to groups, empty alternatives, literals printed in one escape form throughout, 'mojibake' literals; second relation: two layouts of one model generate byte-identical "
+            "code; third relation: the same model with the flag directives moved in front of the @check directives generates the same code (directives in any order). "
+            "Non-trivial = layout has a comment inside an expression, a non-raw escape, or redundant parentheses; distinct by text.")
 C15_RULE = ("classes of grammar text, each counted: valid model grammars (canonical and random layout, 5 derive sets), restriction violators (25 kinds, one "
             "injected violation of each documented restriction; every kind also run 3x deterministically) which MUST be rejected with an error value, "
             "token-level mutations of valid texts, hostile identifiers and @check/@extern paths, include cycles (must be rejected), bracket nesting up to "
@@ -231,7 +233,30 @@ def simple_front(prop, sub, rule, quick_cases, thorough_cases, extra_args=()):
             return 2
         cov = cov_from_front(j, rule)
         cov["generated_cases"] = cases
-        return main.finish(prop, tier, seed, t0, cov, j["violations"], FRONT_ASSUMPTIONS, None)
+        violations = j["violations"]
+        infra = None
+        if prop == "C11":
+            # the same check against the runtime crate built without its default `colored` feature (own crate: building it
+            # together with anything that depends on peginator_codegen would switch the feature back on)
+            if not ws.build_tools(("frontnc",)):
+                return 2
+            out = os.path.join(ws.WORK, "frontnc_%d.json" % os.getpid())
+            pn = subprocess.run([ws.tool("frontnc"), "c11", "--seed", str(seed), "--cases", str(max(cases // 4, 1000)), "--out", out],
+                                stdout=subprocess.DEVNULL, stderr=subprocess.PIPE, text=True, timeout=3600)
+            if pn.returncode != 0 or not os.path.exists(out):
+                infra = "frontnc failed: rc=%s %s" % (pn.returncode, (pn.stderr or "")[-300:])
+            else:
+                with open(out) as f:
+                    jn = json.load(f)
+                os.unlink(out)
+                cov["evaluations"] += jn["evaluations"]
+                cov["without_colored_feature"] = dict(evaluations=jn["evaluations"], distinct_nontrivial=jn["distinct_nontrivial"], classes=jn["classes"])
+                for v in jn["violations"]:
+                    v["signature"] = "nocolor:" + str(v.get("signature", ""))
+                    v["message"] = "[runtime built without the `colored` feature] " + str(v.get("message", ""))
+                    v["feature_colored"] = False
+                violations = violations + jn["violations"]
+        return main.finish(prop, tier, seed, t0, cov, violations, FRONT_ASSUMPTIONS, infra)
     return handler
 
 
@@ -484,6 +509,16 @@ def run_c16(prop, tier, seed):
                 viol(g, "cli-release", "code printed by the release build of the command-line tool differs from the library's (debug build)",
                      lib_code[:300], _strip_header(p2.stdout.decode())[1][:300])
             cls("cli_release_route")
+            # the grammar handed over through a pipe (`... | peginator-cli /dev/stdin`): same bytes
+            with open(g["file"], "rb") as gf:
+                gbytes = gf.read()
+            p3 = subprocess.run([cli] + cargs + ["/dev/stdin"], input=gbytes, stdout=subprocess.PIPE, stderr=subprocess.PIPE, timeout=120)
+            evaluations += 1
+            if p3.returncode != 0:
+                viol(g, "cli-pipe", "the command-line tool fails when the grammar comes through a pipe (/dev/stdin)", "status 0", "status %d %s" % (p3.returncode, p3.stderr.decode()[:200]))
+            elif _strip_header(p3.stdout.decode())[1].rstrip("\n") != lib_code.rstrip("\n"):
+                viol(g, "cli-pipe", "code printed for a grammar read from a pipe differs from the library's", lib_code[:300], _strip_header(p3.stdout.decode())[1][:300])
+            cls("cli_pipe_route")
         # build-script route
         if lib_code is not None:
             for prefix in ("", "use std::fmt;\n// second line"):
